@@ -14,6 +14,7 @@
 import YtkProofs.Builder
 import YtkProofs.LensIdx
 import YtkProofs.ValidB
+import YtkProofs.HeapBuilder
 
 namespace Ytk.C03
 
@@ -148,5 +149,197 @@ theorem nonvacuous_divergeIdx :
     .idx (by decide +kernel) ⟨[2], 5, 1, [], [], ?_, ?_, by decide⟩,
     fitsB_sound _ _ (by decide +kernel), by decide +kernel, by decide +kernel, by decide +kernel,
     by decide +kernel⟩ <;> decide +kernel
+
+/-! ## Pointer level: the path-level builder API on the heap model (YtkModel/HeapBuilder.lean)
+
+  The theorems above live in a value model, where "a handle stays attached", "AddContainer yields a
+  fresh container" or "the node itself is stored" cannot even be said.  Below a document is a root
+  ADDRESS in a heap of cells (YtkModel/Heap.lean), a handle — what AddContainer / AddList / Child /
+  Lookup return — is an address, and the builder calls are the store-passing functions of
+  YtkModel/HeapBuilder.lean (`addH` = AddValue, `addValueAtH`, `addContainerH`, `removeAtH`, `childH`,
+  `lookupH`, `listSet`, `compactH`, histories `HOp` / `hstep`).
+
+  `Inv h`: closed, acyclic (ranked), sorted children maps, cell 0 = the shared nil leaf.
+  `Apart h x y`: the graphs below `x` and `y` share at most leaves.  `SibSep h r`: the graph below `r`
+  is a tree apart from shared leaves. -/
+
+section heap
+open Ytk.Heap
+
+/-- SET-GET, pointer level: after `AddValueAt(path, v)` on the handle `c`, `Lookup(path)` returns the
+    very node `v` that was passed in — it is attached itself, not a copy (the documented sharing of
+    the builder API). Every path string. -/
+theorem heap_addValueAt_stores_node (h h' : Heap) (rank : Addr → Nat) (c v : Addr) (path : String)
+    (hc : h.Closed) (hr : h.RankedBy rank) (hn : h.NilOk) (hm : h.MapsOk) (hv : v < h.size) (hcl : c < h.size)
+    (hp : path ≠ "") (he : addValueAtH h c path v = some h') : lookupH h' c path = some v := by
+  simp only [lookupH, if_neg hp]
+  exact addAtSegsH_lookup hc hr hn hm hv _ c h' (splitPath_ne_nil path) hcl he
+
+/-- … and for a direct member (`AddValue`, names with index groups included): `Child(name)` is `v`. -/
+theorem heap_add_stores_node (h h' : Heap) (rank : Addr → Nat) (c v : Addr) (name : String)
+    (hr : h.RankedBy rank) (hn : h.NilOk) (he : addH h c name v = some h') : childH h' c name = some v :=
+  addH_child hr hn he
+
+/-- `AddContainer(name)` / `AddList(name)` return a FRESHLY ALLOCATED, EMPTY cell — its address is
+    not an address of the old heap, whatever was stored under the name before (an existing container
+    there is detached, never reused) —, `Child(name)` returns that cell, and at most one existing cell
+    (reachable from the handle) is written. -/
+theorem heap_addContainer_fresh (h h2 : Heap) (rank : Addr → Nat) (c b : Addr) (name : String)
+    (hc : h.Closed) (hr : h.RankedBy rank) (hn : h.NilOk) (hm : h.MapsOk) (hcl : c < h.size) :
+    (addContainerH h c name = some (h2, b) →
+      b = h.size ∧ h2.get? b = some (.cont []) ∧ childH h2 c name = some b ∧
+        ∃ w, Reach h c w ∧ ∀ a, a < h.size → a ≠ w → h2.get? a = h.get? a) ∧
+    (addListH h c name = some (h2, b) →
+      b = h.size ∧ h2.get? b = some (.list []) ∧ childH h2 c name = some b ∧
+        ∃ w, Reach h c w ∧ ∀ a, a < h.size → a ≠ w → h2.get? a = h.get? a) :=
+  ⟨addContainerH_fresh hc hr hn hm hcl, addListH_fresh hc hr hn hm hcl⟩
+
+/-- WRITE SET of `AddValueAt`: exactly ONE existing cell `w` can change — a container or list on
+    the walked path (reachable from the handle; it keeps its kind) —, every other existing cell is
+    what it was, and everything reachable from the handle afterwards was reachable before, or is
+    freshly allocated, or lies below the value node, or is the shared nil leaf (padding). -/
+theorem heap_addValueAt_writes (h h' : Heap) (rank : Addr → Nat) (c v : Addr) (path : String)
+    (hc : h.Closed) (hr : h.RankedBy rank) (hn : h.NilOk) (hm : h.MapsOk) (hv : v < h.size) (hcl : c < h.size)
+    (he : addValueAtH h c path v = some h') :
+    ∃ w, Reach h c w ∧ Composite h w ∧ Composite h' w ∧
+      (∀ a, a < h.size → a ≠ w → h'.get? a = h.get? a) ∧
+      (∀ b, Reach h' c b → Reach h c b ∨ h.size ≤ b ∨ Reach h v b ∨ b = nilAddr) := by
+  obtain ⟨w, spec⟩ := addAtSegsH_spec hc hr hn hm hv _ c h' (splitPath_ne_nil path) hcl he
+  refine ⟨w, spec.reach_w, spec.composite_w, ?_, spec.frame, fun b hb => spec.reach_after hc hn hv hcl hb⟩
+  obtain ⟨cw, cw', _, h2w, hleaf, hl, hcn, _⟩ := spec.written
+  refine ⟨cw', h2w, ?_⟩
+  cases cw' with
+  | leaf s => cases cw <;> simp_all [Cell.isLeaf, Cell.isList, Cell.isCont]
+  | list _ => rfl
+  | cont _ => rfl
+
+/-- HANDLES ARE PATHS: when the walk of `path` from the root ends in the container `x` (the handle an
+    earlier AddContainer / Child / Lookup returned), a call made on the handle IS the path-level call
+    made on the root — `x.AddValue(last, v)` = `root.AddValueAt(path, v)`, `x.Remove(last)` =
+    `root.RemoveAt(path)`, `x.Child(last)` = `root.Lookup(path)` — the same heap results, literally.
+    So every refinement / set-get / frame law of the path-level calls holds for writes through a live
+    handle. -/
+theorem heap_handle_live (h : Heap) (root x v : Addr) (segs : List String) (ha : ancestorH h root segs = some x) :
+    Reach h root x ∧ ∃ last, segs.getLast? = some last ∧
+      addAtSegsH h root segs v = addH h x last v ∧
+      removeAtSegsH h root segs = Ytk.Heap.remove h x last ∧
+      lookupSegsH h root segs = childH h x last :=
+  ⟨ancestorH_reach segs root x ha, ancestorH_spec v segs root x ha⟩
+
+/-- DETACHED HANDLES: any builder call (`op`, with any value node) made on a handle whose graph shares
+    no container / list with the graph below `root` leaves the document below `root` unchanged — at
+    every fuel, i.e. `abs root` is what it was. -/
+theorem heap_handle_detached (h h' : Heap) (op : HOp) (ret : Option Addr) (root : Addr) (hi : Inv h) (hok : op.Ok h)
+    (he : hstep h op = .ok (h', ret)) (hrl : root < h.size) (hap : Apart h root op.target) (f : Nat) :
+    absH f h' root = absH f h root := hstep_abs_frame hi hok he hrl hap f
+
+/-- … and overwriting / removing a member DETACHES the node that was stored there: after
+    `c.Remove(name)` or `c.AddValue(name, v)` (`AddContainer` / `AddList`: `v` = the new cell) the old
+    member `x` shares no container / list with the graph below `c` any more — so by
+    `heap_handle_detached` later writes through the old handle `x` (or through any handle below it) are
+    invisible from `c`.  Proved for member names without index groups (the full statement also
+    covers `l[i]` slots and the path-level calls). -/
+theorem heap_overwrite_detaches_partial (h h' : Heap) (rank : Addr → Nat) (c x : Addr) (name : String)
+    (hr : h.RankedBy rank) (hm : h.MapsOk) (hs : SibSep h c) (hplain : hasIdxSuffix name = false)
+    (hx : childH h c name = some x) :
+    (Ytk.Heap.remove h c name = some h' → Apart h' c x) ∧
+    (∀ v, Apart h v x → ¬ Reach h v c → addH h c name v = some h' → Apart h' c x) :=
+  ⟨remove_detaches hr hm hs hplain hx, fun _ hvx hvc he => addH_detaches hr hm hs hplain hx hvx hvc he⟩
+
+/-- INVARIANT of one call: closed, acyclic, sorted maps, nil leaf — provided the call is made on an
+    existing cell and the node it attaches (if any) exists and reaches no container / list of the graph
+    below the handle (`HOp.Ok`; in particular it does not reach the cell it is stored in). -/
+theorem heap_step_closed (h h' : Heap) (op : HOp) (ret : Option Addr) (hi : Inv h) (hok : op.Ok h)
+    (he : hstep h op = .ok (h', ret)) : Inv h' := hstep_inv hi hok he
+
+/-- INVARIANT of every history in which each call is `Ok` in the heap it is applied to. -/
+theorem heap_run_closed (h h' : Heap) (ops : List HOp) (hrun : SafeRun h ops h') (hi : Inv h) :
+    Inv h' ∧ Ytk.Heap.hrun h ops = .ok h' := ⟨hrun.inv hi, hrun.hrun_ok⟩
+
+/-- The hypothesis on the attached node cannot be dropped: attaching an ANCESTOR below itself
+    (`#2.AddValue("up", #1)` where #1 = {"a": #2}) gives a closed heap that is cyclic, and the
+    document has no abstraction any more (every traversal diverges) — the shape of D28. -/
+theorem heap_add_own_ancestor_cycle :
+    cycHeap.Closed ∧ cycHeap.Acyclic ∧
+    ∃ h', addH cycHeap 2 "up" 1 = some h' ∧ h'.Closed ∧ ¬ h'.Acyclic ∧ abs h' 1 = none :=
+  addH_own_ancestor_cycle
+
+/-! ### Non-vacuity on a concrete heap
+
+  `exB`: 0 nilLeaf · 1 leaf 1 · 2 {b: #1} · 3 = root {a: #2, n: nilLeaf} · 4 leaf "v" (a value to attach) -/
+def exB : Heap := ⟨[.leaf Scalar.null, .leaf ⟨"int", "1"⟩, .cont [("b", 1)], .cont [("a", 2), ("n", 0)],
+  .leaf ⟨"string", "v"⟩]⟩
+
+def exBRank : Addr → Nat | 3 => 2 | 2 => 1 | _ => 0
+
+theorem nonvacuous_heap_builder_inv : Inv exB ∧ exB.RankedBy exBRank ∧ SibSep exB 3 := by
+  have hr : exB.RankedBy exBRank := rankedBy_of_all (by decide)
+  refine ⟨⟨closed_of_all (by decide), ⟨exBRank, hr⟩, mapsOk_of_all (by decide +kernel), rfl⟩, hr, ?_⟩
+  intro a c _ hg i j ki kj hi hj hij
+  have halt : a < 5 := Heap.get?_lt hg
+  -- only the root has two slots; one of them is the nil leaf, which reaches only itself
+  have key : ki = 0 ∨ kj = 0 := by
+    match a, hg, halt with
+    | 0, hg, _ | 1, hg, _ | 4, hg, _ =>
+      simp only [exB, Heap.get?, List.getElem?_cons_zero, List.getElem?_cons_succ, Option.some.injEq] at hg
+      subst hg; simp [Cell.kids] at hi
+    | 2, hg, _ =>
+      simp only [exB, Heap.get?, List.getElem?_cons_zero, List.getElem?_cons_succ, Option.some.injEq] at hg
+      subst hg
+      simp only [Cell.kids, List.map_cons, List.map_nil] at hi hj
+      match i, j with
+      | 0, 0 => exact absurd rfl hij
+      | 0, j + 1 => simp at hj
+      | i + 1, _ => simp at hi
+    | 3, hg, _ =>
+      simp only [exB, Heap.get?, List.getElem?_cons_zero, List.getElem?_cons_succ, Option.some.injEq] at hg
+      subst hg
+      simp only [Cell.kids, List.map_cons, List.map_nil] at hi hj
+      match i, j with
+      | 0, 0 => exact absurd rfl hij
+      | 1, 1 => exact absurd rfl hij
+      | 0, 1 => right; simpa using hj.symm
+      | 1, 0 => left; simpa using hi.symm
+      | i + 2, _ => simp at hi
+      | 0, j + 2 => simp at hj
+      | 1, j + 2 => simp at hj
+    | a + 5, _, halt => exact absurd halt (Nat.not_lt.mpr (Nat.le_add_left 5 a))
+  intro b hb1 hb2 hcomp
+  have hb0 : b = 0 := by
+    rcases key with rfl | rfl
+    · exact Reach.of_leaf (h := exB) (s := Scalar.null) rfl hb1
+    · exact Reach.of_leaf (h := exB) (s := Scalar.null) rfl hb2
+  subst hb0
+  obtain ⟨cell, hgc, hl⟩ := hcomp
+  cases (Option.some.inj hgc : Cell.leaf Scalar.null = cell)
+  simp [Cell.isLeaf] at hl
+
+/-- `root.AddValueAt("a.c[1].d", #4)`: refines the value-level `addValueAt`, `Lookup` returns #4 itself,
+    the only existing cell written is #2 (the container `a`), slot 0 of the new list is the shared nil leaf -/
+theorem nonvacuous_heap_addValueAt :
+    ((addValueAtH exB 3 "a.c[1].d" 4).bind fun h' => abs h' 3) =
+      (abs exB 3).bind (fun n => match n, abs exB 4 with
+        | .cont d, some v => some (.cont (addValueAt d "a.c[1].d" v))
+        | _, _ => none) ∧
+    (abs exB 3).isSome = true ∧
+    ((addValueAtH exB 3 "a.c[1].d" 4).bind fun h' => lookupH h' 3 "a.c[1].d") = some 4 ∧
+    ((addValueAtH exB 3 "a.c[1].d" 4).map fun h' =>
+      (List.range 5).filter fun a => h'.get? a != exB.get? a) = some [2] ∧
+    ((addValueAtH exB 3 "a.c[1].d" 4).bind fun h' => lookupH h' 3 "a.c[0]") = some nilAddr := by
+  decide +kernel
+
+/-- handles: `x := root.Child("a")` (#2); a write through the live handle is the root-level path
+    write; `root.AddContainer("a")` returns a NEW empty cell (#5) and detaches #2: a later write through
+    the old handle #2 is invisible from the root -/
+theorem nonvacuous_heap_handles :
+    childH exB 3 "a" = some 2 ∧ ancestorH exB 3 ["a", "z"] = some 2 ∧
+    addH exB 2 "z" 4 = addValueAtH exB 3 "a.z" 4 ∧
+    ((addContainerH exB 3 "a").map fun p => (p.2, p.1.get? p.2, childH p.1 3 "a")) = some (5, some (.cont []), some 5) ∧
+    ((addContainerH exB 3 "a").bind fun p => (addH p.1 2 "z" 4).bind fun h2 => abs h2 3) =
+      ((addContainerH exB 3 "a").bind fun p => abs p.1 3) ∧
+    ((addContainerH exB 3 "a").bind fun p => abs p.1 3).isSome = true := by
+  decide +kernel
+
+end heap
 
 end Ytk.C03
